@@ -770,7 +770,7 @@ fn c08_prepared(slot: &Slot, s: &NameOnly, max_subsets: usize, post_edit: bool, 
             // every crash state): the recovery run(s) must complete, lose nothing (C02), leave both sides equal with
             // an idempotent second run (C06), and no file may hold bytes that nobody ever wrote.
             if torn.is_null() && post_edit && k <= n {
-                for side in ["A", "B"] {
+                for (side, variant) in [("A", "short"), ("B", "short"), ("A", "same-length, old mtime"), ("B", "same-length, old mtime")] {
                     for n in ["A", "B", "home"] {
                         wipe(&slot.root.join(n));
                     }
@@ -779,10 +779,22 @@ fn c08_prepared(slot: &Slot, s: &NameOnly, max_subsets: usize, post_edit: bool, 
                             write_files(&slot.root.join(n), &[(p.as_str(), b.clone())]);
                         }
                     }
-                    let edit: Vec<u8> = b"s!".to_vec();
                     let target: Option<String> = pre.0.keys().chain(pre.1.keys()).find(|p| !is_staging(p) && !p.contains(".conflict-")).cloned();
                     let Some(target) = target else { continue };
+                    let cur = if side == "A" { kill_state.0.get(&target) } else { kill_state.1.get(&target) };
+                    let edit: Vec<u8> = if variant == "short" {
+                        b"s!".to_vec()
+                    } else {
+                        // what `cp -p` of an older same-size version would leave: other bytes, same length, an OLD mtime
+                        match cur {
+                            Some(c) if !c.is_empty() => c.iter().map(|x| x ^ 0x5A).collect(),
+                            _ => continue,
+                        }
+                    };
                     write_files(&slot.root.join(side), &[(target.as_str(), edit.clone())]);
+                    if variant != "short" {
+                        crate::c19::set_mtime(&slot.root.join(side).join(&target), 1_400_000_000, 0);
+                    }
                     let edited = slot.state();
                     evals.fetch_add(1, Ordering::Relaxed);
                     let mut ok = false;
@@ -801,8 +813,8 @@ fn c08_prepared(slot: &Slot, s: &NameOnly, max_subsets: usize, post_edit: bool, 
                         known.extend(t.iter().filter(|(p, _)| !is_staging(p)).map(|(_, b)| b));
                     }
                     known.push(&edit);
-                    let d2 = json!({"scenario": s.name, "kill_at": k, "torn": Value::Null, "post_crash_edit": {"side": side, "path": target}});
-                    let what = format!("scenario {} killed before call {k}, then {target} rewritten (2 bytes) on side {side}", s.name);
+                    let d2 = json!({"scenario": s.name, "kill_at": k, "torn": Value::Null, "post_crash_edit": {"side": side, "path": target, "variant": variant}});
+                    let what = format!("scenario {} killed before call {k}, then {target} rewritten ({variant}) on side {side}", s.name);
                     if !ok {
                         out.push(Violation::new("recovery_fails", format!("{what}: three recovery runs all failed: {}", last_err.lines().last().unwrap_or("")), d2).with("scenario", json!(s.name)).with("post_crash_edit", json!(true)));
                     } else if let Some((p, b)) = after.0.iter().chain(after.1.iter()).filter(|(p, _)| !is_staging(p)).find(|(_, b)| !known.contains(b)) {
